@@ -57,7 +57,7 @@ CHECKS = {
          "computed from the harness's own serialisation, script code and amount - never from the library's bytes - and compared with "
          "Transaction.signature_hash for every input of API-built transactions over 8 spend kinds, all networks, counts across 252/253, m-of-n to 15; "
          "then the library signs and every signature is verified by the Lean ECDSA against the Lean digest (valid on the real network, not merely "
-         "self-consistent). Found and fixed through this check: F33, F45 (P2SH-P2WPKH input with a caller-supplied locking script)."),
+         "self-consistent). Found and fixed through this check: F33, F45 (P2SH-P2WPKH input with a caller-supplied locking script), F82 (the same with a caller-supplied redeem script). Merged transactions (t1 + t2) and output scripts of 252 / 253 / 65535 / 65536 bytes are part of every run."),
    design_ref='DESIGN.md §5 C01',
    note=COMMON_NOTE + "secp256k1 arithmetic and SHA-256 in the driver are executable reference code (validated by vectors / agreement with the library), not verified. "
         "FindAndDelete/OP_CODESEPARATOR are not modelled; the library does not implement legacy non-ALL hash types (it refuses to sign them)."),
@@ -70,7 +70,7 @@ CHECKS = {
          "nonce as fastecdsa derives it from sha256 of the ASCII-hex digest, low-S, strict DER): for every generated (key, digest[, nonce]) - incl. "
          "digests crafted so that s hits n/2, n/2+1, 2^255-1, 2^255, 2^255+1, n-1 - r, s, DER bytes and nonce must be identical; every signature is "
          "verified by the independent Lean secp256k1 verifier and re-decoded by a strict BIP66 decoder; library-derived nonces are pairwise distinct; "
-         "the library verifier must answer exactly like the standard verifier on r,s in {0,1,n-1,n,n+1,2^256-1,+n}, high-S twins, wrong keys, digest +-1; the digest as bytes / lower-case / upper-case hexadecimal and the public key as object / bytes / hexadecimal text are one message and one key; der_encode_sig / convert_der_sig are compared with the model on structured (r, s). Found and fixed: F10, F63 (nonce depended on the case of the digest text), F64 (public key as text not accepted)."),
+         "the library verifier must answer exactly like the standard verifier on r,s in {0,1,n-1,n,n+1,2^256-1,+n}, high-S twins, wrong keys, digest +-1; the digest as bytes / lower-case / upper-case hexadecimal and the public key as object / bytes / hexadecimal text are one message and one key; der_encode_sig / convert_der_sig are compared with the model on structured (r, s). Found and fixed: F10, F63 (nonce depended on the case of the digest text), F64 (public key as text not accepted), F90 (DER signatures of 64 bytes or less refused). Public keys that are not on the curve (non-strict Key objects) are offered with forged signatures."),
    design_ref='DESIGN.md §5 C13',
    note=COMMON_NOTE + "Hypotheses, not theorems: secp256k1's points form a cyclic group of prime order n with x(-R) = x(R); HMAC-SHA256 collision resistance for "
         "'nonce never shared'. Curve arithmetic, SHA-256, HMAC in the driver are reference code validated by vectors and by agreement with fastecdsa. "
@@ -83,7 +83,7 @@ CHECKS = {
          "p1++p2 then neutering equals private along p1, neutering, public along p2 (induction, unbounded depth); depth bookkeeping; the five spellings of the hardened marker after any digits denote the same child number, the number plus 2^31, and numbers from 2^31 on cannot be hardened (on the executable path-item parser). The driver contains "
          "an independent BIP32 (HMAC-SHA512, secp256k1, HASH160 reference code; BIP32 vector chains) compared with HDKey.from_seed/subkey_for_path/"
          "child_private/child_public on seeds of 16..64 bytes, depths to 8 (20), boundary indices, all five hardened spellings, m/ and M/ prefixes, every "
-         "split point with the public part re-imported from its xpub string. The bare prefixes m and M are asked of master and derived keys. Found and fixed through this check: F08, F59 (the path M returned the private key)."),
+         "split point with the public part re-imported from its xpub string. The bare prefixes m and M are asked of master and derived keys. Found and fixed through this check: F08, F59 (the path M returned the private key), F83 (hardened marker on numbers from 2^31 on wrapped around), F84 (HD objects with compressed=False derived other children)."),
    design_ref='DESIGN.md §5 C03',
    note=COMMON_NOTE + "The error branches of BIP32 (I_L >= n, child key 0 / point at infinity) are in the executable model but outside the algebraic theorems; "
         "they have probability < 2^-127 and are not reachable by search."),
@@ -96,7 +96,7 @@ CHECKS = {
          "testnet, litecoin, dogecoin and P2PKH != P2SH versions in every network. The decoding logic that the theorems are about is the code the "
          "driver runs. Scalars (0, 1, n-1, n, n+1, 2^256-1, sparse, leading zeros, random; as int/bytes/hex/HDKey), public encodings (every small x on "
          "and off the curve, x >= p, wrong y, wrong prefix, wrong length) and addresses for every network x encoding x script type (Key.address in "
-         "shuffled call orders on one object, Address(), HDKey per witness type) are compared with the model. Found and fixed: F09; listed: F09b."),
+         "shuffled call orders on one object, Address(), HDKey per witness type) are compared with the model. Key objects go through histories that switch between the two forms and between address kinds under an explicit prefix. Found and fixed: F09, F81 (address(compressed=...) hashed the wrong form and changed the object); listed: F09b."),
    design_ref='DESIGN.md §5 C04',
    note=COMMON_NOTE + "Point multiplication, SHA-256, RIPEMD-160 are reference code (vectors + agreement with the library), not verified; 'p prime' is a hypothesis. "
         "p2tr: only the Bech32m encoding of a given 32-byte output key is claimed."),
@@ -174,7 +174,7 @@ CHECKS = {
          "providers, priority orders, max_providers in {1,2}, max_errors in {1,2,4}: returned value, results and errors bookkeeping must match. Every "
          "query method (sendrawtransaction, getrawtransaction, getbalance, getutxos, gettransaction, mempool, isspent, estimatefee) is run on all "
          "{ok, False, exception}^2 patterns cold and warm: the answer must be the first responding provider's, a failure, or - warm - exactly what "
-         "was stored. Additionally proved: a cache read returns what was stored for that key, and along ANY history of cached queries (cold / warm / partially filled cache, any failures) every value returned for a key was answered by some provider for that key in this or an earlier query; random histories of Service.gettransaction over several txids are compared with this cache + provider machine. Listed finding: F36 (getbalance reports 0 when no provider answered; the repair breaks an unedited offline test)."),
+         "was stored. Additionally proved: a cache read returns what was stored for that key, and along ANY history of cached queries (cold / warm / partially filled cache, any failures) every value returned for a key was answered by some provider for that key in this or an earlier query; random histories of Service.gettransaction over several txids are compared with this cache + provider machine. Blocks read page by page (cold and from the cache), getrawblock, getinfo, getinputvalues, transactions with outputs of value 0 and a cached transaction read after the cached block count expired are included. Found and fixed: F95 (negative confirmations from the cache). Listed finding: F36 (getbalance reports 0 when no provider answered; the repair breaks an unedited offline test)."),
    design_ref='DESIGN.md §5 C20',
    note=COMMON_NOTE + "Providers are in-process fakes (timeouts and partial HTTP answers are represented by the outcome classes); the SQL cache is exercised, not modelled; estimatefee's clamping/default is a documented normalisation; blockcount's provider-consensus vote is outside the model."),
  'C17': dict(
@@ -186,7 +186,7 @@ CHECKS = {
          "round(), %.Nf) reproduces the library's pipelines digit for digit and is itself validated against CPython on every run. Compared: integer "
          "-> Value -> integer on 0..20000, 10^k+-1, 2^k+-1, the top of the range and random amounts (50k / thorough 300k), 8-decimal strings -> "
          "satoshi, library formatting parsed back, and formatting in every denominator symbol on every network against the exact decimal "
-         "specification; amount strings with every denominator symbol of the table are read back. Found and fixed: F46 (the da symbol), F51 (from_satoshi with a denominator) and F52 (strings with a denominator symbol) - both off by one satoshi for large amounts; after the repairs both pipelines are the ones of the two theorems, and they are run over the whole supply range in every unit. Listed: F14 (display in non-unit denominators is off for some large amounts; float design)."),
+         "specification; amount strings with every denominator symbol of the table are read back. Found and fixed: F46 (the da symbol), F51 (from_satoshi with a denominator) and F52 (strings with a denominator symbol) - both off by one satoshi for large amounts; F91 (unknown currency codes read as the default currency), F92 (add_output(Value) made an output of whole coins as satoshi); after the repairs both pipelines are the ones of the two theorems, and they are run over the whole supply range in every unit. Listed: F14 (display in non-unit denominators is off for some large amounts; float design)."),
    design_ref='DESIGN.md §5 C17',
    note=COMMON_NOTE + "The standard model of floating-point arithmetic (and, for the text direction, the half-ulp bound and idempotence of rounding) are hypotheses of the theorems (not proved for the executable roundF64, which is validated against CPython instead). Strings with a denominator symbol other than the coin unit are, since the repair of F52, the same pipeline (exact decimal product, rounded once); that float(Decimal) is correctly rounded is CPython's documented behaviour, checked by the run over the whole supply range in every unit. "
         "Where more than 8 decimals would be needed (denominators above the coin unit) any correct rounding of the last shown digit is accepted. Non-negativity of output and fee amounts is checked under C07."),
@@ -214,7 +214,7 @@ CHECKS = {
          "with Key.encrypt / bip38_decrypt / Key(import) on structured keys (edge scalars, both flags, several networks, unicode NFC-sensitive "
          "passphrases), wrong passphrases, corrupted strings incl. the checksum tail, histories that change the key's address encoding before "
          "encrypting, the BIP38 vectors incl. EC-multiplied ones (decrypt side) and successive bip38_create_new_encrypted_wif calls (distinct "
-         "keys). EC-multiplied keys are generated from seeds and salts with leading / inner / trailing zero bytes, on several networks, with lot / sequence incl. sequence 0, and opened with the passphrase in the other unicode normal form; HD key objects of every witness type must encrypt like plain keys. Found and fixed: F11, F20, F07, F37, F65 (HDKey.encrypt hashed the bech32 address), F66 (EC mode: passphrase not normalised on decryption), F67 (EC mode on other networks never decrypted), F68 (sequence 0 refused)."),
+         "keys). EC-multiplied keys are generated from seeds and salts with leading / inner / trailing zero bytes, on several networks, with lot / sequence incl. sequence 0, and opened with the passphrase in the other unicode normal form; HD key objects of every witness type must encrypt like plain keys. Found and fixed: F11, F20, F07, F37, F65 (HDKey.encrypt hashed the bech32 address), F66 (EC mode: passphrase not normalised on decryption), F67 (EC mode on other networks never decrypted), F68 (sequence 0 refused), F93 (HD key objects could not open BIP38 strings)."),
    design_ref='DESIGN.md §5 C15',
    note=COMMON_NOTE + "AES-256 and scrypt are reference code / hashlib, not proved; the EC-multiplied mode is covered by correspondence (vectors, generate-then-decrypt), not by theorems."),
  'C08': dict(
@@ -229,7 +229,7 @@ CHECKS = {
          "failing push, transactions built by one Wallet object and imported as object / raw hex / dict into a second one and sent there, "
          "transaction_delete of sent and stub transactions, close+reopen, new keys) with real wallets (HD legacy / segwit / p2sh-segwit, "
          "single-key, multisig): utxos(), balance(), per-key balances through the open object AND a second Wallet object on the same database, "
-         "in random observation order; stored transactions are reloaded and compared (id, inputs, outputs, raw). Found and fixed: F17, F23, F24, F38."),
+         "in random observation order; stored transactions are reloaded and compared (id, inputs, outputs, raw). Wallets with another default account, re-listed (also spent) outpoints, small sequence numbers, held key objects and held transaction objects sent again are part of the histories. Found and fixed: F17, F23, F24, F38, F85 (outputs filed under account 0), F86 (sequence 0 reloaded as 0xffffffff), F87 (bulk-created key objects not registered), F96 (a stale object sent again un-spent outputs)."),
    design_ref='DESIGN.md §5 C08',
    note=COMMON_NOTE + "One network and one account per wallet; SQL semantics and two simultaneously open SQLAlchemy sessions are outside the model (a hand-off continues on the receiving object). Outputs on non-leaf keys of an HD wallet are not generated."),
  'C07': dict(
